@@ -31,13 +31,13 @@ PROPS = {
         rule='L0 differential: every prefix length octet 0..255 x exact/short/long for IPv4/IPv6 x plain/add-path, every truncation, generated and mutated lists; MP_REACH with every next-hop length octet x straddling attribute lengths, every flags octet'),
     'C20': dict(title='Peer registry behaves as a consistent map and rejects unusable configs', l0=True, live=True, lean=['CoreBGP.Props.C20', 'CoreBGP.Props.C20Lin', 'CoreBGP.Props.DecTieC20', 'CoreBGP.Props.C20Lock', 'CoreBGP.Props.C20Life'],
         rule='full configuration grid (router id kind x remote/local address kind x AS {0,1,65535,65536,2^32-1} x hold {0,1,2,3,65535} x port {-1,0,1,179,65535,65536}) through NewServer+AddPeer; seeded sequential registry operation sequences (<=13 ops over 6 keys, with and without Serve/Close) compared step by step with the model and the abstract map; concurrent histories (2-4 goroutines x 1-5 operations over 3 keys, serving or not, global-counter stamps) decided by the proved-sound-and-complete linearizability checker against the model and against the abstract map'),
-    'C12': dict(title='Protocol errors damp the peer; Cease and transport faults do not', l0=True, live=True, lean=['CoreBGP.Props.C12', 'CoreBGP.Props.C12L2', 'CoreBGP.Props.C09Tie', 'CoreBGP.Props.DecTieC12', 'CoreBGP.Props.C12Hist', 'CoreBGP.Props.PathTiePeer'],
+    'C12': dict(title='Protocol errors damp the peer; Cease and transport faults do not', l0=True, live=True, lean=['CoreBGP.Props.C12', 'CoreBGP.Props.C12L2', 'CoreBGP.Props.C09Tie', 'CoreBGP.Props.DecTieC12', 'CoreBGP.Props.C12Hist', 'CoreBGP.Props.PathTiePeer', 'CoreBGP.Props.PathTieMain'],
         rule='exhaustive error histories up to length 4 (thorough 5) over the gap alphabet {0,1,10,100,299,300,301,1000 s} and random long ones through the real updateStartupDelay; every NOTIFICATION code 0..255 x sent/received x wrapped/bare through the real handleError'),
     'C05': dict(title='No remote input or API sequence can crash or wedge the process', l0=True, live=True, lean=['CoreBGP.Props.C05', 'CoreBGP.Props.C20Lock', 'CoreBGP.Props.PathTieConn'], clauses=r'C05',
         rule='L0 differential with recover (PANIC is an output like any other) over every decoding entry point: the generators of C02/C08/C15/C16/C18/C19 plus oversize inputs (65535..70000 bytes with extreme length fields)'),
-    'C07': dict(title='Connection collision is resolved per RFC 4271 6.8, in every arrival order', live=True, lean=['CoreBGP.Props.C07', 'CoreBGP.Props.DecTieC07', 'CoreBGP.Props.PathTieRun', 'CoreBGP.Props.PathTiePeer'],
+    'C07': dict(title='Connection collision is resolved per RFC 4271 6.8, in every arrival order', live=True, lean=['CoreBGP.Props.C07', 'CoreBGP.Props.DecTieC07', 'CoreBGP.Props.PathTieRun', 'CoreBGP.Props.PathTiePeer', 'CoreBGP.Props.PathTieMain'],
         rule='live collision grid: local id <,=,> remote id x AS <,> x which connection completes its OPEN exchange first x Established-before-the-other, plus the forced collision window (manager held before the select while the other FSM requests Established / fails); every trace checked by L1 inclusion and all monitors'),
-    'C10': dict(title='Shutdown from any state is prompt, complete, race-free and leak-free', live=True, lean=['CoreBGP.Props.C10', 'CoreBGP.Props.C10Own', 'CoreBGP.Props.C20Lock', 'CoreBGP.Props.C20Life', 'CoreBGP.Props.PathTieC10', 'CoreBGP.Props.PathTieConn', 'CoreBGP.Props.PathTieRun'], race_search=['C10', 'C11', 'C07', 'C04'], race_quick=['C10R'],
+    'C10': dict(title='Shutdown from any state is prompt, complete, race-free and leak-free', live=True, lean=['CoreBGP.Props.C10', 'CoreBGP.Props.C10Own', 'CoreBGP.Props.C20Lock', 'CoreBGP.Props.C20Life', 'CoreBGP.Props.PathTieC10', 'CoreBGP.Props.PathTieConn', 'CoreBGP.Props.PathTieRun', 'CoreBGP.Props.PathTieMain'], race_search=['C10', 'C11', 'C07', 'C04'], race_quick=['C10R'],
         rule='Close / DeletePeer at every point of every connection script (idle, before Serve, OpenSent, OpenConfirm, Established, during collision, damped, with active writers, two peers, the forced dial-completed-while-closing window), both directions'),
     'C09': dict(title='State-dependent message handling follows RFC 4271 8.2.2 / RFC 6608', live=True, lean=['CoreBGP.Props.C09', 'CoreBGP.Props.C09Tie', 'CoreBGP.Props.C09Switch', 'CoreBGP.Props.PathTie', 'CoreBGP.Props.PathTieC09'],
         rule='exhaustive live table: state {OpenSent, OpenConfirm, Established} x stimulus {OPEN, UPDATE, KEEPALIVE, NOTIFICATION Cease/other/hold/undecodable, FIN, RST} x direction {out, in}; each trace must be reproduced by the L1 session model and pass all monitors'),
@@ -50,12 +50,12 @@ PROPS = {
     'C06': dict(title='Hold time negotiation, hold-timer expiry and keepalive cadence', live=True, lean=['CoreBGP.Props.C06', 'CoreBGP.Props.C02b', 'CoreBGP.Props.PathTieC06'],
         rule='live timing grid: (local, remote) hold in {(3,3),(3,0),(0,3),(0,0),(6,3),(3,9)} (thorough adds 9/30/90/65535 columns) x remote pattern {silent, KEEPALIVE-only, UPDATE-only, just-before-expiry, local WriteUpdate traffic} x direction, expiry in OpenConfirm; timing monitor on remote-side timestamps (no early expiry: safe direction; expiry by deadline + 1 s; send gaps <= hold/3 + 0.4 s; zero: no periodic KEEPALIVE, no expiry)',
         assumptions=['real-time bounds are observed with slack (scheduler latency is not proved): partial clause']),
-    'C13': dict(title='Only connections from configured peers to the configured address are served', live=True, lean=['CoreBGP.Props.C13', 'CoreBGP.Props.DecTieC13', 'CoreBGP.Props.PathTiePeer', 'CoreBGP.Props.PathTieC13'],
+    'C13': dict(title='Only connections from configured peers to the configured address are served', live=True, lean=['CoreBGP.Props.C13', 'CoreBGP.Props.DecTieC13', 'CoreBGP.Props.PathTiePeer', 'CoreBGP.Props.PathTieC13', 'CoreBGP.Props.PathTieMain'],
         rule='live admission grid: listener {specific, wildcard} x peer with/without local address x source {configured, other loopback address} x destination {configured, other} x peer state at arrival {idle, inbound in progress, Established, held down}; zero bytes + EOF vs OPEN judged from the trace, an unrelated Established session must stay alive'),
-    'C01': dict(title='One Established session per peer; well-formed plugin callback history', l0=True, live=True, lean=['CoreBGP.Props.C01', 'CoreBGP.Props.C09Tie', 'CoreBGP.Props.PathTieC01', 'CoreBGP.Props.C20', 'CoreBGP.Props.PathTiePeer'],
+    'C01': dict(title='One Established session per peer; well-formed plugin callback history', l0=True, live=True, lean=['CoreBGP.Props.C01', 'CoreBGP.Props.C09Tie', 'CoreBGP.Props.PathTieC01', 'CoreBGP.Props.C20', 'CoreBGP.Props.PathTiePeer', 'CoreBGP.Props.PathTieMain'],
         rule='registry sequences through the real Server (L0 `reg`, incl. IPv4-mapped peer addresses: a second AddPeer of a present key is refused, so there is one peer manager per configured peer); union of the live families in which sessions come and go (collision grid + forced windows, state x message table, shutdown at every point, reconnection fault sequences): every trace must be a trace of the L2 transition system (state-set tracking) and pass the plugin-history monitor (prefix of (E+E-(H+H-)*C+C-)*, complete at Close/DeletePeer, GetCapabilities / OnOpenMessage counts)',
         assumptions=['plugin callbacks are atomic enter/exit pairs that always return']),
-    'C11': dict(title='Reconnection liveness and retry pacing after non-damping faults', live=True, lean=['CoreBGP.Props.C11', 'CoreBGP.Props.C11T', 'CoreBGP.Props.DecTieC11', 'CoreBGP.Props.PathTieC11', 'CoreBGP.Props.PathTiePeer'],
+    'C11': dict(title='Reconnection liveness and retry pacing after non-damping faults', live=True, lean=['CoreBGP.Props.C11', 'CoreBGP.Props.C11T', 'CoreBGP.Props.DecTieC11', 'CoreBGP.Props.PathTieC11', 'CoreBGP.Props.PathTiePeer', 'CoreBGP.Props.PathTieMain'],
         rule='live fault sequences (refuse, close / reset / Cease at OpenSent / OpenConfirm / Established, seeded random sequences) followed by a well-behaved remote, idle-hold in {50,100,200} ms, passive and active peers, inbound session ending; pacing monitor on the exits from Idle and on dial timestamps, bound on time-to-Established',
         assumptions=['real-time pacing / liveness bounds are observed with slack, not proved (partial clause)']),
 }
